@@ -559,3 +559,36 @@ func (vc *VC) heapWF(h Term, key string, al string) {
 	}
 	vc.cmd(fmt.Sprintf("(assert (forall ((o Int) (j Int)) (! (%s %s %s) :pattern (%s))))", wf, inner, al, inner))
 }
+
+// rowWF: heapWF for one havocked object (a row of a heap component): every reference stored in it
+// is well formed for the allocation frontier al.
+func (vc *VC) rowWF(row Term, key string, al string) {
+	if !vc.wfHeap {
+		return
+	}
+	var wf, ksort string
+	switch {
+	case strings.HasPrefix(key, "P_"):
+		wf, ksort = "wfptr", SInt
+	case strings.HasPrefix(key, "S_"):
+		wf, ksort = "wfslice", SInt
+	case strings.HasPrefix(key, "F_"):
+		wf, ksort = "wfiface", SInt
+	case strings.HasPrefix(key, "MK:"):
+		p := strings.SplitN(key[3:], "|", 2)
+		ksort = p[0]
+		switch p[1] {
+		case SPtr:
+			wf = "wfptr"
+		case SSlice:
+			wf = "wfslice"
+		case SIface:
+			wf = "wfiface"
+		default:
+			return
+		}
+	default:
+		return
+	}
+	vc.cmd(fmt.Sprintf("(assert (forall ((j %s)) (! (%s (select %s j) %s) :pattern ((select %s j)))))", ksort, wf, row.S, al, row.S))
+}
